@@ -204,6 +204,8 @@ def render_verilog(desc, rng, style=None):
         else:
             feats.add('implicit_wire')
 
+    spare = {}
+
     def alias(sig):
         """maybe route a use of `sig` through renderer-made alias wires; returns the name to write"""
         if sig in CONST or not st.get('aliases', True):
@@ -211,6 +213,14 @@ def render_verilog(desc, rng, style=None):
         r = rng.random()
         if r < 0.75:
             return sig
+        if spare.get(sig) and rng.random() < 0.7:
+            # a second consumer of an intermediate alias that is itself assigned elsewhere: two assigns wait for the same source
+            b = spare[sig].pop()
+            alias_cnt[0] += 1
+            a = f'al{alias_cnt[0]}_'
+            stm_other.append(f'assign {a} = {b};')
+            feats.add('assign_shared_source')
+            return a
         alias_cnt[0] += 1
         a = f'al{alias_cnt[0]}_'
         feats.add('assign_alias')
@@ -218,12 +228,17 @@ def render_verilog(desc, rng, style=None):
             stm_decl.append(f'wire {a};')
         if r < 0.9:
             stm_other.append(f'assign {a} = {ident(sig)};')
+            spare.setdefault(sig, []).append(a)
             return a
-        alias_cnt[0] += 1
-        b = f'al{alias_cnt[0]}_'
         feats.add('assign_chain')
-        stm_other.append(f'assign {a} = {b};')         # consumer first in this list; the list is shuffled anyway
-        stm_other.append(f'assign {b} = {ident(sig)};')
+        cur = a
+        for _ in range(rng.choice([1, 1, 2, 3])):       # a = b; b = c; ... ; last = sig   (consumers first; the list is shuffled anyway)
+            alias_cnt[0] += 1
+            b = f'al{alias_cnt[0]}_'
+            stm_other.append(f'assign {cur} = {b};')
+            spare.setdefault(sig, []).append(b)
+            cur = b
+        stm_other.append(f'assign {cur} = {ident(sig)};')
         return a
 
     # bus aliases: a declared temp bus fed by a concatenation, readers use its bits
